@@ -977,7 +977,7 @@ impl Prop for RandomPart {
         "random"
     }
     fn cases(&self, tier: Tier) -> u64 {
-        tier.pick(50_000, 5_000_000)
+        tier.pick(200_000, 8_000_000)
     }
     fn strategy(&self, _tier: Tier) -> BoxedStrategy<RandomCase> {
         (
